@@ -10,10 +10,28 @@ Thread, Lock, RLock, Condition, Event, current_thread, main_thread, get_ident.
 """
 
 import threading as _rt
+import _thread
 import itertools
 
 T0 = 1024.0                      # physical epoch of virtual time (dyadic)
 LATENESS_MENU = [0.0, 2.0 ** -10, 0.75]
+
+
+class _Baton:
+    """Binary semaphore on a raw lock (much cheaper than
+    threading.Semaphore): starts empty; release() hands the baton over,
+    acquire() parks until it arrives."""
+    __slots__ = ('_l',)
+
+    def __init__(self):
+        self._l = _thread.allocate_lock()
+        self._l.acquire()
+
+    def acquire(self):
+        self._l.acquire()
+
+    def release(self):
+        self._l.release()
 
 
 class Abort(BaseException):
@@ -73,6 +91,7 @@ class Scheduler:
         self.trace_hook = None    # callable(kind) for state fingerprints
         self.late_total = 0.0
         self.deadlock = None
+        self.livelock = None
         main = VThread(name='MainThread')
         main.id = 0
         main.state = 'ready'
@@ -132,8 +151,16 @@ class Scheduler:
         if self.aborting and not me._is_main:
             raise Abort()
         self.steps += 1
-        if self.steps > self.step_budget:
-            raise Livelock(f'step budget {self.step_budget} exceeded')
+        if self.steps > self.step_budget and not self.aborting:
+            msg = f'step budget {self.step_budget} exceeded in {me.name}'
+            if me._is_main:
+                raise Livelock(msg)
+            self.livelock = msg
+            self.current = self.main
+            self.main.state = 'ready'
+            self.main._sem.release()
+            me._sem.acquire()
+            raise Abort()
         en = self.enabled()
         while not en:
             try:
@@ -167,6 +194,8 @@ class Scheduler:
         if me._is_main:
             if self.deadlock:
                 raise Deadlock(self.deadlock)
+            if self.livelock:
+                raise Livelock(self.livelock)
         elif self.aborting:
             raise Abort()
 
@@ -274,7 +303,7 @@ class VThread:
         self.deadline = None
         self.notified = False
         self.exact = False
-        self._sem = _rt.Semaphore(0)
+        self._sem = _Baton()
         self._os = None
         self._is_main = False
         self._os_ident = None
@@ -355,9 +384,15 @@ class VLock:
         return self._owner is None or (self.reentrant and self._owner is t)
 
     def acquire(self, blocking=True, timeout=-1):
+        # No choice point when the lock is free: being preempted here is
+        # equivalent to not having been scheduled at the point that made this
+        # thread run (its previous release / start / wake-up), because only
+        # thread-local code lies in between.
         S = SCHED
-        S.point('acquire')
         me = S.current
+        if me._os_ident != _rt.get_ident() or \
+                (S.aborting and not me._is_main):
+            raise Abort()
         while not self._free_for(me):
             if not blocking:
                 return False
@@ -476,8 +511,8 @@ class VCondition:
             t.notified = True
             t.state = 'lock'
             t.blocked_on = self._lock
-        if not S.aborting:
-            S.point('notify')
+        # not a choice point: the woken threads cannot run before the
+        # notifier releases the lock, and that release is a point.
 
     def notify_all(self):
         self.notify(len(self._waiters))
